@@ -41,9 +41,8 @@ def consensus(clades):
 def relabel(graph):
     """Relabels a consensus tree.
 
-    Takes in a DiGraph of clades, return a new DiGraph where nodes are again set of mutation, but with a different
-    interpretation. The tranformation used to change the nodes/sets is to start with the original and remove from each
-    node the data_points that appear in children clades.
+    Takes in a DiGraph of clades, return a new DiGraph with the same nodes where each node carries the attribute
+    "own": the set obtained by starting with the clade and removing the data_points that appear in children clades.
     """
     result = nx.DiGraph()
 
@@ -63,8 +62,8 @@ def clean_tree(tree, data=None):
 
     idx_map = {}
 
-    for data_points, node in node_map.items():
-        idx_map[node] = sorted(data_points)
+    for old_node, node in node_map.items():
+        idx_map[node] = sorted(tree.nodes[old_node]["own"])
 
     nx.set_node_attributes(new_tree, name="idxs", values=idx_map)
 
@@ -114,12 +113,14 @@ def _relabel(node, transformed, original):
 
     result = frozenset(result)
 
-    transformed.add_node(result)
+    # Nodes stay keyed by their clade: two clades that are exactly the union of their children both have an
+    # empty set of their own and must not be merged into one node
+    transformed.add_node(node, own=result)
 
     for _, children in original.out_edges(node):
-        transformed.add_edge(result, _relabel(children, transformed, original))
+        transformed.add_edge(node, _relabel(children, transformed, original))
 
-    return result
+    return node
 
 
 def roots(graph):
